@@ -85,7 +85,7 @@ theorem stepSession_rewind (cx : Ctx) (tc : TapCtx) (ep e : IEnv) (hinv : ep.Inv
                 · simp [hpo, fail] at hs
                 · simp only [hpo, Bool.false_eq_true, if_false] at hs
                   cases hr : ep.p2shStack.getLast? with
-                  | none => simp [hr] at hs
+                  | none => simp [hr, fail] at hs
                   | some redeem =>
                     simp only [hr] at hs
                     cases hs
@@ -107,9 +107,12 @@ theorem stepSession_rewind (cx : Ctx) (tc : TapCtx) (ep e : IEnv) (hinv : ep.Inv
               simp only [atStart, hat', Bool.false_eq_true, if_false, if_true]
               cases ep; simp_all
           · simp only [hsu, Bool.not_false, if_true] at hs
-            cases hs
-            refine ⟨⟨by simp, fun _ => by simp [atStart]⟩, Or.inl ?_⟩
-            refine ⟨?_, instRewind_of_atStart ?_⟩ <;> simp [atStart]
+            by_cases hsz : ep.successor.length > Gen.MAX_SCRIPT_SIZE
+            · simp [hsz, fail] at hs
+            · simp only [hsz, if_false] at hs
+              cases hs
+              refine ⟨⟨by simp, fun _ => by simp [atStart]⟩, Or.inl ?_⟩
+              refine ⟨?_, instRewind_of_atStart ?_⟩ <;> simp [atStart]
       · simp [hc, fail] at hs
     · -- an operation of the script
       simp only [hpc, Bool.not_false, if_true] at hs
